@@ -14,9 +14,10 @@ FLAGS_plain := $(BASE)
 REPO_SRCS := $(wildcard $(REPO)/src/CppUTest/*.cpp) $(wildcard $(REPO)/src/CppUTestExt/Mock*.cpp) $(REPO)/src/Platforms/Gcc/UtestPlatform.cpp
 repo_objs = $(patsubst $(REPO)/src/%.cpp,$(B)/$(1)/repo/%.o,$(REPO_SRCS))
 
-ENGINES_asan := runsim
+ENGINES_asan := runsim heapsim
 ENGINES_noexc := runsim
-ALL := $(foreach v,asan noexc,$(foreach e,$(ENGINES_$(v)),$(B)/$(v)/$(e)))
+ENGINES_noguard := heapsim
+ALL := $(foreach v,asan noexc noguard,$(foreach e,$(ENGINES_$(v)),$(B)/$(v)/$(e)))
 
 all: $(ALL)
 
@@ -36,6 +37,13 @@ $(B)/$(1)/runsim: $(patsubst %.cpp,$(B)/$(1)/verif/%.o,$(RUNSIM_SRCS)) $(call re
 	$(CXX) $$(FLAGS_$(1)) $$^ -o $$@ -lexpat -lpthread
 endef
 $(foreach v,asan noexc,$(eval $(call RUNSIM_RULE,$(v))))
+
+HEAPSIM_SRCS := heapsim/heapsim.cpp core/asanopts.cpp
+define HEAPSIM_RULE
+$(B)/$(1)/heapsim: $(patsubst %.cpp,$(B)/$(1)/verif/%.o,$(HEAPSIM_SRCS)) $(call repo_objs,$(1))
+	$(CXX) $$(FLAGS_$(1)) $$^ -o $$@ -lpthread
+endef
+$(foreach v,asan noguard,$(eval $(call HEAPSIM_RULE,$(v))))
 
 clean:
 	rm -rf $(B)
